@@ -21,6 +21,14 @@ T = {
     text="A table of ~3000 derived-constructor / infix / FNode-method forms (all arities, widths 1..4, Python literals on either side, repeated argument objects) is built over symbols; the decoded formula is evaluated by the reference evaluator at every argument tuple (Bool/BV exhaustively, Int/Real at drawn tuples incl. huge and rational values) and compared with a direct Python definition of the named function; out-of-range signed constants must raise.",
     note="Trusted: vf/refsem.py and the Python definitions in vf/checks/c06.py; x[i:j] is read as bits i..j inclusive (as FNode.__getitem__ documents by passing start/end).",
     technique="table-driven exhaustive / sampled evaluation of derived forms against direct Python definitions"),
+ "C12": dict(level="exploration", design="4/C12",
+    text="Generated formulas (binders shadowing free symbols, UF, Boolean terms below theory terms, shared sub-DAGs) are analysed by get_free_variables / get_atoms / is_qf / get_types / size (6 measures, in varying order); results must equal independent recursive definitions on the decoded structure (two-sided bounds for SYMBOLS and sorts), and two semantic tests are run with the reference evaluator: changing a symbol not reported free never changes the value; interpretations that agree on all reported atoms give a QF formula the same truth value.",
+    note="Trusted: definitions in vf/checks/c12.py, vf/refsem.py; DAG counts rely on hash-consing (C04).",
+    technique="property-based comparison with independent recursive definitions + semantic dependence (metamorphic) tests"),
+ "C13": dict(level="exploration", design="4/C13",
+    text="Detection: get_logic / get_theory / the script's set-logic must enable every feature an independent extraction finds in generated formulas. Order: reflexivity, antisymmetry, transitivity of <=, combine as upper bound over ALL pairs and (via bit-row inclusion) all triples of the 1728 well-formed theories and over all pairs/triples of the named logics; derived relations consistent. Selection: get_closer_logic / most_generic_logic judged against their specification for every named target x shipped lists and drawn subsets (incl. anonymous targets).",
+    note="Trusted: feature extraction in vf/checks/c13.py (non-linear = product of >=2 symbol-mentioning factors, symbol-mentioning divisor, or pow); theories restricted to well-formed ones; difference logic not judged.",
+    technique="exhaustive enumeration of the finite order/selection spaces + property-based differential feature extraction"),
 }
 
 checks, na = [], []
